@@ -128,7 +128,7 @@ class Run:
         if k is not None:
             if key not in self.known_hits:
                 self.known_hits.append(key)
-                print(f"KNOWN-FINDING: property={self.prop} {k['what']}", flush=True)
+                print(f"KNOWN-FINDING: property={self.prop} {k.get('short', k['what'])}", flush=True)
             return False
         if key in self._reported:
             return True
